@@ -1108,6 +1108,18 @@ pub fn generate(seed: u64, case: u64, max_steps: usize) -> Ran {
             if add.len() == 2 && add[0].0 == add[1].0 {
                 add.pop();
             }
+            if r.chance(1, 4) {
+                // swap the weights of two members: the total stays exactly where it was
+                let gm = w.group_members();
+                if gm.len() >= 2 {
+                    let a = *r.pick(&gm);
+                    let b = *r.pick(&gm);
+                    if a.0 != b.0 && a.1 != b.1 {
+                        add = vec![(a.0, b.1), (b.0, a.1)];
+                        remove.clear();
+                    }
+                }
+            }
             Step::Group { h, t, add, remove }
         } else if kind < 11 {
             Step::Fund { h, t, n: Uint128::new(500) }
@@ -1237,21 +1249,53 @@ pub fn generate(seed: u64, case: u64, max_steps: usize) -> Ran {
                 // so that quorum and threshold boundaries are reached, then somebody tries to execute
                 Step::Call { h, t, op: Op::Propose { .. }, .. }
                     if new_prop.is_some()
-                        && (r.chance(1, if matches!(ran.trace.init.threshold, Thr::Quorum(..)) { 3 } else { 5 }) || (voters.iter().any(|(a, wt)| *a == Arg::Id(new_prop.unwrap().1) && *wt == 0) && r.chance(1, 2))) =>
+                        && (r.chance(1, if matches!(ran.trace.init.threshold, Thr::Quorum(..)) && matches!(&deposit, Some(d) if !d.refund) {
+                            1 // the one configuration in which a proposal can pass by the end of its period alone and keep its deposit
+                        } else if matches!(ran.trace.init.threshold, Thr::Quorum(..)) || matches!(&deposit, Some(d) if !d.refund) {
+                            3
+                        } else {
+                            5
+                        }) || (voters.iter().any(|(a, wt)| *a == Arg::Id(new_prop.unwrap().1) && *wt == 0) && r.chance(1, 2))) =>
                 {
                     let (pid, proposer) = new_prop.unwrap();
                     let zero_proposer = voters.iter().any(|(a, wt)| *a == Arg::Id(proposer) && *wt == 0);
                     // 0, 1: mixed; 2: everybody abstains; 3: yes votes first, vetoes last
                     let mode = if zero_proposer && r.chance(1, 2) {
                         2
+                    } else if matches!(&deposit, Some(d) if !d.refund) && r.chance(if matches!(ran.trace.init.threshold, Thr::Quorum(..)) { 3 } else { 1 }, 4) {
+                        4 // with deposits kept from failed proposals: a proposal that passes only when the period ends
                     } else if matches!(ran.trace.init.threshold, Thr::Quorum(..)) && r.chance(1, 2) {
                         3
                     } else {
-                        r.below(4)
+                        r.below(5) // 4: only the first half of the members vote (Yes): decided only when the period ends
                     };
-                    let others: Vec<usize> = member_ids.iter().cloned().filter(|m| *m != proposer).collect();
+                    let mut others: Vec<usize> = member_ids.iter().cloned().filter(|m| *m != proposer).collect();
+                    if mode == 4 {
+                        // light voters first, and only as long as the Yes weight stays below the threshold share of the
+                        // total: not decided while voting is open, decided by the cast votes alone when it ends
+                        let wt = |m: usize| voters.iter().find(|(a, _)| *a == Arg::Id(m)).map(|x| x.1 as u128).unwrap_or(0);
+                        others.sort_by_key(|m| wt(*m));
+                        let th = match &ran.trace.init.threshold {
+                            Thr::Pct(p) | Thr::Quorum(p, _) => p.u128(),
+                            Thr::Count(_) => 500_000_000_000_000_000,
+                        };
+                        let tot: u128 = voters.iter().map(|x| x.1 as u128).sum();
+                        let mut yes = wt(proposer);
+                        let mut keep = vec![];
+                        for m in others.iter().cloned() {
+                            if (yes + wt(m)).saturating_mul(1_000_000_000_000_000_000) < th.saturating_mul(tot) {
+                                yes += wt(m);
+                                keep.push(m);
+                            }
+                        }
+                        others = keep;
+                        if r.chance(1, 3) {
+                            others.clear(); // nobody but the proposer: decided by the proposer's own Yes when the period ends
+                        }
+                    }
                     for (k, m) in others.iter().cloned().enumerate() {
                         let v = match mode {
+                            4 => V::Yes,
                             2 => V::Abstain,
                             3 => {
                                 if 2 * k < others.len() {
@@ -1269,7 +1313,12 @@ pub fn generate(seed: u64, case: u64, max_steps: usize) -> Ran {
                         };
                         pending.push_back(Step::Call { h: *h, t: *t, s: m, op: Op::Vote { id: pid, v } });
                     }
-                    pending.push_back(Step::Call { h: *h, t: *t, s: proposer, op: Op::Execute { id: pid } });
+                    if mode == 4 || r.chance(1, 3) {
+                        // ... only after the voting period has ended (a proposal that passes only at expiry)
+                        pending.push_back(Step::Call { h: *h + 12, t: *t + 12_000_000_000, s: proposer, op: Op::Execute { id: pid } });
+                    } else {
+                        pending.push_back(Step::Call { h: *h, t: *t, s: proposer, op: Op::Execute { id: pid } });
+                    }
                 }
                 Step::Call { h, t, op: Op::Propose { .. }, .. } if new_prop.is_some() && r.chance(1, 4) => {
                     let (pid, proposer) = new_prop.unwrap();
@@ -1281,6 +1330,23 @@ pub fn generate(seed: u64, case: u64, max_steps: usize) -> Ran {
                         pending.push_back(Step::Call { h: *h, t: *t, s: m, op: Op::Vote { id: pid, v: V::Yes } });
                     }
                 }
+                // the other placement of a same-block change: the group changes first, then a member whose weight was just
+                // changed proposes in that block (the known class D3), and the round of votes follows
+                Step::Group { h, t, add, .. } if !add.is_empty() && w.changed && r.chance(1, 3) => {
+                    title += 1;
+                    let who = add[0].0;
+                    let (funds, allow) = match &deposit {
+                        Some(d) if d.tok == Tok::Native => (vec![(0, d.amount.max(Uint128::new(1)))], None),
+                        Some(d) => (vec![], Some(d.amount)),
+                        None => (vec![], None),
+                    };
+                    pending.push_back(Step::Call { h: *h, t: *t, s: who, op: Op::Propose { title, msgs: vec![], latest: None, funds, allow } });
+                    let pid = last_after.as_ref().map(|o| o.props.len() as u64).unwrap_or(0) + 1;
+                    for m in member_ids.iter().cloned().filter(|m| *m != who) {
+                        let v = if r.chance(1, 3) { V::No } else { V::Yes };
+                        pending.push_back(Step::Call { h: *h + 1, t: *t + 1_000_000_000, s: m, op: Op::Vote { id: pid, v } });
+                    }
+                }
                 // a member removed from the group tries to execute a passed proposal in the block of its removal
                 Step::Group { h, t, remove, .. } if !remove.is_empty() && w.changed && r.chance(1, 2) => {
                     if let Some(o) = &last_after {
@@ -1288,6 +1354,29 @@ pub fn generate(seed: u64, case: u64, max_steps: usize) -> Ran {
                         if !passed.is_empty() {
                             pending.push_back(Step::Call { h: *h, t: *t, s: remove[0], op: Op::Execute { id: *r.pick(&passed) } });
                         }
+                    }
+                }
+                // class D3 with a removal: a member is removed, another one proposes in the same block (the recorded total
+                // no longer includes the removed weight), the removed member - still in the snapshot - votes No first,
+                // then the others vote Yes
+                Step::Group { h, t, remove, .. } if !remove.is_empty() && w.changed && r.chance(1, 2) => {
+                    let gone = remove[0];
+                    let stay: Vec<usize> = member_ids.iter().cloned().filter(|m| *m != gone).collect();
+                    if !stay.is_empty() {
+                        title += 1;
+                        let who = stay[0];
+                        let (funds, allow) = match &deposit {
+                            Some(d) if d.tok == Tok::Native => (vec![(0, d.amount.max(Uint128::new(1)))], None),
+                            Some(d) => (vec![], Some(d.amount)),
+                            None => (vec![], None),
+                        };
+                        pending.push_back(Step::Call { h: *h, t: *t, s: who, op: Op::Propose { title, msgs: vec![], latest: None, funds, allow } });
+                        let pid = last_after.as_ref().map(|o| o.props.len() as u64).unwrap_or(0) + 1;
+                        pending.push_back(Step::Call { h: *h + 1, t: *t + 1_000_000_000, s: gone, op: Op::Vote { id: pid, v: V::No } });
+                        for m in stay.iter().cloned().filter(|m| *m != who) {
+                            pending.push_back(Step::Call { h: *h + 1, t: *t + 1_000_000_000, s: m, op: Op::Vote { id: pid, v: V::Yes } });
+                        }
+                        pending.push_back(Step::Call { h: *h + 1, t: *t + 1_000_000_000, s: who, op: Op::Execute { id: pid } });
                     }
                 }
                 _ => {}
